@@ -100,18 +100,23 @@ func inherited(run string) ([16][2]uint64, error) {
 	if len(pids) == 0 {
 		return [16][2]uint64{}, fmt.Errorf("no container init found")
 	}
-	first, err := limrun.ParentLimits(strconv.Itoa(pids[0]))
-	if err != nil {
-		return first, err
-	}
-	for _, p := range pids[1:] {
+	// other workers build and drop containers concurrently: an init may vanish between the scan
+	// and the read; all the ones that can be read must agree
+	var first [16][2]uint64
+	n := 0
+	for _, p := range pids {
 		o, err := limrun.ParentLimits(strconv.Itoa(p))
 		if err != nil {
-			return first, err
+			continue
 		}
-		if o != first {
+		if n > 0 && o != first {
 			return first, fmt.Errorf("container inits with different limits")
 		}
+		first = o
+		n++
+	}
+	if n == 0 {
+		return first, fmt.Errorf("no container init could be read")
 	}
 	return first, nil
 }
